@@ -42,49 +42,26 @@ Theorem get_host_info_tie : forall s h p, gen_get_host_info s h p = ([], Ok (loo
 Proof. exact EquivTofu_proofs.get_host_info_tie. Qed.
 Print Assumptions get_host_info_tie.
 
-(* _validate_fingerprint.  The tie `forall fp, gen_validate_fingerprint fp = fp_valid fp` is FALSE: the pattern
-   ^sha256:[0-9a-f]{64}$ is applied with re.match, whose `$` also matches before a final line feed.  Counterexample
-   ("sha256:" + 64 x "a" + "\n": the real _validate_fingerprint returns True, import_toml stores it) and the strongest
-   true statement: *)
-Eval vm_compute in (gen_validate_fingerprint EquivTofu_proofs.fp_counterexample, fp_valid EquivTofu_proofs.fp_counterexample).
-Theorem validate_fingerprint_tie_false :
-  gen_validate_fingerprint EquivTofu_proofs.fp_counterexample = true /\ fp_valid EquivTofu_proofs.fp_counterexample = false.
-Proof. exact EquivTofu_proofs.validate_fingerprint_tie_false. Qed.
-Print Assumptions validate_fingerprint_tie_false.
-
-Theorem validate_fingerprint_tie_partial : forall fp,
-  gen_validate_fingerprint fp = fp_valid fp || (ends_lf fp && fp_valid (removelast fp)).
-Proof. exact EquivTofu_proofs.validate_fingerprint_tie_partial. Qed.
-Print Assumptions validate_fingerprint_tie_partial.
-
-Theorem validate_fingerprint_tie_no_lf : forall fp, ends_lf fp = false -> gen_validate_fingerprint fp = fp_valid fp.
-Proof. exact EquivTofu_proofs.validate_fingerprint_tie_no_lf. Qed.
-Print Assumptions validate_fingerprint_tie_no_lf.
+(* _validate_fingerprint.  Finding of this tie: the pattern ^sha256:[0-9a-f]{64}$ is applied with re.match, whose `$` also
+   matches before a final line feed, so "sha256:" + 64 hex digits + "\n" is accepted (and stored by import_toml); the model's
+   fp_valid was changed to follow the code (Tofu.fp_strict is the strict format). *)
+Theorem validate_fingerprint_tie : forall fp, gen_validate_fingerprint fp = fp_valid fp.
+Proof. exact EquivTofu_proofs.validate_fingerprint_tie. Qed.
+Print Assumptions validate_fingerprint_tie.
 
 (* import_toml, from the first statement of its transaction: the optional DELETE, the per-entry loop, the COMMIT.
    `obs` keeps the statements and whether the method returned; the entries are the host tables of the parsed file
-   (TofuGlue.pyentry; to_entry is the model's view of one).  Exact with the model's fp_valid for the callee
-   self._validate_fingerprint; with the code's own _validate_fingerprint the tie is FALSE for a file that holds a fingerprint
-   with a final line feed (the code inserts the entry and commits, the model aborts the import), and holds otherwise. *)
+   (TofuGlue.pyentry; to_entry is the model's view of one).  Stated with the model's fp_valid for the callee
+   self._validate_fingerprint, and with the generated _validate_fingerprint. *)
 Theorem import_toml_tie : forall cb s merge es now,
   obs (gen_import_toml fp_valid s merge cb es now) = import_stmts cb s merge (to_entries es).
 Proof. exact EquivTofu_proofs.import_toml_tie. Qed.
 Print Assumptions import_toml_tie.
 
-Eval vm_compute in (obs (gen_import_toml gen_validate_fingerprint [] true None EquivTofu_proofs.import_counterexample []),
-                    import_stmts None [] true (to_entries EquivTofu_proofs.import_counterexample)).
-Theorem import_toml_code_tie_false :
-  obs (gen_import_toml gen_validate_fingerprint [] true None EquivTofu_proofs.import_counterexample [])
-  = ([SInsert {| r_host := lit "h"; r_port := 1965; r_fp := EquivTofu_proofs.fp_counterexample; r_first := lit "x" |}; SCommit], true)
-  /\ import_stmts None [] true (to_entries EquivTofu_proofs.import_counterexample) = ([], false).
-Proof. exact EquivTofu_proofs.import_toml_code_tie_false. Qed.
-Print Assumptions import_toml_code_tie_false.
-
-Theorem import_toml_code_tie_partial : forall cb s merge es now,
-  Forall (fun ke => ends_lf (pe_fp (snd ke)) = false) es ->
+Theorem import_toml_code_tie : forall cb s merge es now,
   obs (gen_import_toml gen_validate_fingerprint s merge cb es now) = import_stmts cb s merge (to_entries es).
-Proof. exact EquivTofu_proofs.import_toml_code_tie_partial. Qed.
-Print Assumptions import_toml_code_tie_partial.
+Proof. exact EquivTofu_proofs.import_toml_code_tie. Qed.
+Print Assumptions import_toml_code_tie.
 
 (* the TOFU block of GeminiClient._get_single and of GeminiClient.upload (between reading the peer certificate and sending
    the request), with the three TOFUDatabase methods instantiated by the GENERATED ones: the store it leaves and the way it
